@@ -134,6 +134,20 @@ func (fc *FuncContract) mentions(prop string) bool {
 			return true
 		}
 	}
+	for _, cs := range fc.CallSites {
+		for _, c := range cs {
+			if hasProp(c.Props, prop) {
+				return true
+			}
+		}
+	}
+	for _, cs := range fc.Params {
+		for _, c := range cs {
+			if hasProp(c.Props, prop) {
+				return true
+			}
+		}
+	}
 	return false
 }
 
